@@ -437,7 +437,11 @@ func init() {
 					default:
 						d = uint64(1) << uint(r.Range(17, 40))
 					}
-					p.Ops = append(p.Ops, Op{K: "update", L: l, B: -1, D: d})
+					probe := Op{K: "update", L: l, B: -1, D: d}
+					if r.Chance(0.3) {
+						probe.M, probe.MV = "ext", r.Uint64() // an honest log may put extension lines after the root hash; still only its own signature line
+					}
+					p.Ops = append(p.Ops, probe)
 				}
 			}
 			return p
